@@ -190,6 +190,15 @@ theorem gl_overloads_agree (f : Rat â†’ Rat) (a b : Rat) (n : Nat) (z pp : Nat â
     simp [List.getD, hk']
   rw [this]; rfl
 
+/-! ## history independence (class D justification) -/
+
+/-- **gl_history_independent**: in any sequence of rule computations the answer at a position is the
+    rule of that position's own arguments `(n, a, b)` â€” whatever was computed before or after. -/
+theorem gl_history_independent (rnd cospi : Rat â†’ Rat) (eps : Rat) (fuel : Nat)
+    (pre post : List (Nat Ã— Rat Ã— Rat)) (n : Nat) (a b : Rat) :
+    (glSeq rnd cospi eps fuel (pre ++ (n, a, b) :: post))[pre.length]? = some (glRule rnd cospi eps fuel n a b) := by
+  simp [glSeq]
+
 /-! ## [T2] the coded recurrence, its derivative, the middle root, n = 1 -/
 
 -- `legendre_derivative`, `legendre_odd_zero`, `newton_middle_root`, `gl_exact_n1` (Legendre.lean), `gl_n2_defect` (N2.lean) are in
